@@ -152,6 +152,22 @@ func Harness_C14_ConstructorsAndBytes() {
 			val = nil
 		}
 		ops := []interface{}{map[string]interface{}{"op": "add", "path": "/name", "value": val}}
+		// every operation kind on ordinary members, incl. moves and copies between positions of one array and onto
+		// the same location (from is not an ancestor of path there)
+		switch verifrt.Choose("json-patch-kind", 7) {
+		case 1:
+			ops = []interface{}{map[string]interface{}{"op": "move", "from": "/order/0", "path": "/order/2"}}
+		case 2:
+			ops = []interface{}{map[string]interface{}{"op": "copy", "from": "/order/1", "path": "/order/0"}}
+		case 3:
+			ops = []interface{}{map[string]interface{}{"op": "move", "from": "/name", "path": "/name"}}
+		case 4:
+			ops = []interface{}{map[string]interface{}{"op": "copy", "from": "/a/b", "path": "/c/d"}}
+		case 5:
+			ops = []interface{}{map[string]interface{}{"op": "remove", "path": "/order/0"}, map[string]interface{}{"op": "test", "path": "/name", "value": val}}
+		case 6:
+			ops = []interface{}{map[string]interface{}{"op": "replace", "path": "/name", "value": val}}
+		}
 		p, err = patch.NewJSONPatch(mustJSON(ops))
 		wantAction, wantValue = patch.JSONPatch, ops
 	}
